@@ -196,3 +196,78 @@ fn c13_q_chunk_cut() {
     kani::cover!(true);
     core::mem::forget(r);
 }
+
+/// C14 at frame level: a frame (layer + user data, symbolic contents) delivered in short reads with transient
+/// Interrupted results (RetryReader, see vklib) parses to the same layer as from the in-memory slice.
+/// take_bytes / unzip (read_to_end through std's Take / the inflater) are not on this path.
+fn frame_delivery(max: usize, mask: u64) {
+    let bytes = layer_ud_frame();
+    let mut ra = AseReader::with(RetryReader { data: &bytes, pos: 0, max, calls: 0, mask, interrupts: 0 });
+    let mut rb = AseReader::with(&bytes[..]);
+    let mut ia = ParseInfo::new(1, 100);
+    let mut ib = ParseInfo::new(1, 100);
+    let xa = parse_frame(&mut ra, 0, PixelFormat::Rgba, &mut ia);
+    let xb = parse_frame(&mut rb, 0, PixelFormat::Rgba, &mut ib);
+    assert!(xa.is_ok() == xb.is_ok(), "same outcome for every delivery schedule");
+    if xa.is_ok() && xb.is_ok() {
+        assert!(ia.layers.len() == 1 && ib.layers.len() == 1, "one layer either way");
+        let (la, lb) = (&ia.layers[0], &ib.layers[0]);
+        assert!(la.flags.bits() == lb.flags.bits() && la.opacity == lb.opacity && la.blend_mode == lb.blend_mode, "same layer attributes");
+        assert!(la.name.len() == 1 && lb.name.len() == 1 && la.name.as_bytes()[0] == lb.name.as_bytes()[0], "same layer name");
+        match (&la.user_data, &lb.user_data) {
+            (Some(ua), Some(ub)) => match (&ua.color, &ub.color) {
+                (Some(ca), Some(cb)) => assert!(ca.0[0] == cb.0[0] && ca.0[1] == cb.0[1] && ca.0[2] == cb.0[2] && ca.0[3] == cb.0[3], "same user data colour"),
+                _ => assert!(false, "user data colour present either way"),
+            },
+            _ => assert!(false, "user data attached either way"),
+        }
+    }
+    kani::cover!(xa.is_ok()); // call 0 is interrupted by construction (mask bit 0)
+    core::mem::forget((xa, xb, ia, ib, bytes));
+}
+macro_rules! delivery_harness {
+    ($name:ident, $max:expr, $mask:expr) => {
+        #[kani::proof]
+        #[kani::unwind(9)]
+        #[kani::stub(alloc::fmt::format, crate::vklib::empty_format)]
+        #[kani::stub(std::hash::RandomState::new, crate::vklib::fixed_random_state)]
+        fn $name() {
+            frame_delivery($max, $mask);
+        }
+    };
+}
+// 4 bytes per call, calls 0, 3, 6, ... interrupted
+delivery_harness!(c14_q_frame_short_reads_interrupted, 4, 0x9249_2492_4924_9249);
+// 5 bytes per call, every other call interrupted
+delivery_harness!(c14_t_frame_short_reads_interrupted_alt, 5, 0x5555_5555_5555_5555);
+
+/// C14 at chunk level: a hard I/O error (concrete kind per offset) inside the payload of one chunk: Chunk::read returns
+/// the IoError variant carrying that kind. (A fault inside the 6 header bytes is decided for the primitives that read
+/// them -- c14_q_hard_error_{long,word}; here it would leave the chunk size unconstrained on the Ok continuation that
+/// CBMC cannot rule out during symbolic execution, and the query runs out of memory.)
+#[kani::proof]
+#[kani::unwind(6)]
+#[kani::stub(alloc::fmt::format, crate::vklib::empty_format)]
+fn c14_q_hard_error_chunk_read() {
+    const AT: [usize; 3] = [6, 8, 9];
+    const KINDS: [std::io::ErrorKind; 3] = [std::io::ErrorKind::BrokenPipe, std::io::ErrorKind::InvalidData, std::io::ErrorKind::Other];
+    for k in 0..3 {
+        let mut b: [u8; 10] = kani::any();
+        b[0] = 10; // declared size 10
+        b[1] = 0;
+        b[2] = 0;
+        b[3] = 0;
+        b[4] = 0x06; // cel extra
+        b[5] = 0x20;
+        let mut budget: i64 = 1000;
+        let mut reader = AseReader::with(LimitReader { data: &b, pos: 0, limit: AT[k], fault: Some(KINDS[k]) });
+        let r = Chunk::read(&mut budget, &mut reader);
+        match &r {
+            Ok(_) => assert!(false, "the reader failed before the chunk was delivered: no chunk"),
+            Err(AsepriteParseError::IoError(e)) => assert!(e.kind() == KINDS[k], "the reader's error kind is preserved"),
+            Err(_) => assert!(false, "an I/O failure is reported as the IoError variant"),
+        }
+        core::mem::forget(r);
+    }
+    kani::cover!(true);
+}
